@@ -999,6 +999,21 @@ class Judge(object):
             self.classes.add("acf:nearly-constant-guard")
             return
         self.classes.add("acf:" + rel)
+        # An autocorrelation coefficient has the sign of the lag-k sum of cross products around the mean,
+        # whatever normalisation (n or n-k) the estimator uses. Judged only where that is unambiguous:
+        # n >= 10, k <= n/4, |r_k| >= 0.3 under the standard definition.
+        n = len(ya)
+        if n >= 10:
+            mu = sum(ya) / n
+            den = sum((y - mu) ** 2 for y in ya)
+            for k in range(1, min(nlag, n // 4) + 1):
+                rk = sum((ya[i] - mu) * (ya[i + k] - mu) for i in range(n - k)) / den if den > 0 else 0.0
+                if abs(rk) >= 0.3 and ua[k] <= 1e-6:
+                    self.judged["acf-sign"] += 1
+                    if not (aa[k] * rk > 0.0):
+                        self.fail("acf/sign", "cmd %d: ACF[%d] = %r but the lag-%d cross products around the mean give "
+                                  "%.3f (n=%d)" % (ia, k, aa[k], k, rk, n))
+                        return
         ok_all = True
         for k in range(1, nlag + 1):
             tol = 16.0 * (ua[k] + ub[k]) + 1e-12
